@@ -497,6 +497,30 @@ def sm_const(ctx):
            key='scanned')
 
 
+def _float_typed(init, arg):
+    """the prototype `self.<x>` of a `*_like` allocation was itself made a float array by the
+    constructor (`np.asarray(..., dtype=float)`, `.astype(float)`, `np.zeros(...)`, ...)"""
+    if arg is None:
+        return False
+    want = norm_text(arg)
+    for st in ast.walk(init.node):
+        if isinstance(st, ast.Assign) and norm_text(st.targets[0]) == want and \
+                isinstance(st.value, ast.Call):
+            c = st.value
+            if any(k.arg == 'dtype' and norm_text(k.value) in ('float', 'np.float64', 'numpy.float64',
+                                                              "'float'", "'float64'")
+                   for k in c.keywords):
+                return True
+            if isinstance(c.func, ast.Attribute) and c.func.attr == 'astype' and c.args and \
+                    norm_text(c.args[0]) in ('float', 'np.float64', 'numpy.float64'):
+                return True
+            if init.module.resolve(c.func) in ('numpy.zeros', 'numpy.ones', 'numpy.identity',
+                                               'numpy.eye', 'numpy.empty') and \
+                    not any(k.arg == 'dtype' for k in c.keywords):
+                return True
+    return False
+
+
 def sm_accum(ctx):
     ctx.rule('SM-ACCUM', 'update_estimates: every write is += of the zipped state element')
     ctx.rule('SM-ATTRS', 'reset_estimates re-initialises every attribute that update_estimates '
@@ -589,7 +613,8 @@ def sm_accum(ctx):
                     (em.module.resolve(st.value.func) or '') in (
                         'numpy.zeros_like', 'numpy.empty_like', 'numpy.ones_like',
                         'numpy.full_like') and \
-                    not any(k.arg == 'dtype' for k in st.value.keywords):
+                    not any(k.arg == 'dtype' for k in st.value.keywords) and \
+                    not _float_typed(init, st.value.args[0] if st.value.args else None):
                 ctx.ob('SM-ATTRS', False, None, 'estimate arrays are allocated as floats', f=m_,
                        node=st, key='dtype-' + norm_text(st.targets[0]),
                        why='`%s` allocates an estimate with the dtype of `%s`, a value the user '
